@@ -55,13 +55,21 @@ Scen(op, side, form, lit, n, a, b) == ScenN(op, side, "-", form, lit, n, a, b)
 Expand(ua, ub) ==
   {Scen(op, "qq", "-", <<>>, ROne, [v |-> va, ex |-> ua], [v |-> vb, ex |-> ub]) :
       op \in BinOps, va \in Vals, vb \in Vals}
+  \cup {Scen(op, "qq", "-", <<>>, ROne, [v |-> va, ex |-> ua], [v |-> vb, ex |-> ub]) :
+          op \in SpaceOps, va \in Vals, vb \in Vals}
   \cup (IF ub = <<>> THEN
+          {ScenN(op, "qn", "py", "-", <<>>, ROne, [v |-> va, ex |-> ua], [v |-> vb, ex |-> <<>>]) :
+              op \in SpaceOps, va \in Vals, vb \in Vals}
+          \cup
           {ScenN(op, "qn", num, "-", <<>>, ROne, [v |-> va, ex |-> ua], [v |-> vb, ex |-> <<>>]) :
               op \in BinOps, va \in Vals, vb \in Vals, num \in {"py", "np"}}
           \cup {Scen("neg", "q", "-", <<>>, ROne, [v |-> va, ex |-> ua], Dummy) : va \in Vals}
           \cup {Scen("pow", "q", pc[1], pc[2], pc[3], [v |-> va, ex |-> ua], Dummy) : pc \in PowCases, va \in Vals}
         ELSE {})
   \cup (IF ua = <<>> THEN
+          {ScenN(op, "nq", "py", "-", <<>>, ROne, [v |-> va, ex |-> <<>>], [v |-> vb, ex |-> ub]) :
+              op \in SpaceOps, va \in Vals, vb \in Vals}
+          \cup
           {ScenN(op, "nq", num, "-", <<>>, ROne, [v |-> va, ex |-> <<>>], [v |-> vb, ex |-> ub]) :
               op \in BinOps, va \in Vals, vb \in Vals, num \in {"py", "np"}}
         ELSE {})
@@ -78,16 +86,22 @@ Next ==
   ELSE /\ idx + Stride <= NFile /\ idx' = idx + Stride /\ sc' = FileScen[idx'] /\ stage' = 2
 
 -----------------------------------------------------------------------------
-Class(s) == IF Unspecified(s.op, s.a, s.b, s.n) THEN "unspecified"
-            ELSE IF Refused(s.op, s.a, s.b) THEN "refused" ELSE "ok"
+\* a plain number given to linspace / logspace is read in the units the quantity argument carries (cancellation applied)
+EffA(s) == IF s.op \in SpaceOps /\ s.side = "nq" THEN [v |-> s.a.v, ex |-> NEx(s.b)] ELSE s.a
+EffB(s) == IF s.op \in SpaceOps /\ s.side = "qn" THEN [v |-> s.b.v, ex |-> NEx(s.a)] ELSE s.b
+Class(s) == IF Unspecified(s.op, EffA(s), EffB(s), s.n) THEN "unspecified"
+            ELSE IF Refused(s.op, EffA(s), EffB(s)) THEN "refused" ELSE "ok"
 
 Record(s) ==
   LET c == Class(s)
-      ex == IF c = "ok" THEN ResEx(s.op, s.a, s.b, s.n) ELSE <<>>
-      bt == IF c = "ok" THEN ResBaseT(s.op, s.a, s.b, s.n) ELSE TQ(RZero)
+      ex == IF c = "ok" THEN ResEx(s.op, EffA(s), EffB(s), s.n) ELSE <<>>
+      bt == IF c = "ok" THEN ResBaseT(s.op, EffA(s), EffB(s), s.n) ELSE TQ(RZero)
+      sp == c = "ok" /\ s.op \in SpaceOps
   IN [id |-> idx, op |-> s.op, side |-> s.side, num |-> s.num, form |-> s.form, lit |-> s.lit, n |-> s.n, a |-> s.a, b |-> s.b,
       cls |-> c, ex |-> ex, dim |-> IF c = "ok" THEN Dim(ex) ELSE <<>>,
       base |-> bt, val |-> TDiv(bt, TFac(ex)),
+      seqb |-> IF sp THEN [k \in 1..SpaceN |-> SpaceBaseT(s.op, EffA(s), EffB(s), k - 1, ex)] ELSE <<>>,
+      seqv |-> IF sp THEN [k \in 1..SpaceN |-> SpaceValT(s.op, EffA(s), EffB(s), k - 1, ex)] ELSE <<>>,
       exact |-> IF c = "ok" /\ Source = "enum" /\ ResExactOK(s.op, s.a, s.b, s.n)
                 THEN ResBaseQ(s.op, s.a, s.b, s.n) ELSE <<>>,
       machex |-> IF c = "ok" /\ s.op = "pow" THEN MachPowEx(NEx(s.a), s.n, s.form, FixedDevs) ELSE ex,
@@ -121,6 +135,8 @@ Lemmas ==
     /\ (op = "pow" /\ n = RInt(2) /\ exq) => ResBaseQ(op, a, b, n) = RMul(BaseQ(a), BaseQ(a))
     \* cancellation: dimensionless results carry only dimensionless named units
     /\ LET ex == ResEx(op, a, b, n) IN ZeroDim(ex) => \A i \in DOMAIN ex : ~UnitDimensional(ex[i].u)
+    \* linspace / logspace keep the units of the first quantity argument; both end points have its dimension
+    /\ (op \in SpaceOps) => Dim(ResEx(op, EffA(sc), EffB(sc), n)) = Dim(EffB(sc).ex)
     \* the transcribed exponent scaling agrees with the ideal except for non-integral float products
     /\ (op = "pow" /\ ~FloatForm(sc.form, n)) => PowTags(a, n, sc.form, {}) = {}
     /\ (op = "pow" /\ RIsInt(n)) => PowTags(a, n, sc.form, {}) = {}
